@@ -330,6 +330,46 @@ theorem parseValGen_eq (h : Heap) (g : GoVal) : parseValGen h g = parseVal h g :
     cases fl <;> simp only [parseValGen, O.newFrom] <;> rw [parseVal] <;> gen_case
   | _ => simp only [parseValGen, parseVal]
 
+/-! ### NewObjectFrom -/
+
+/-- a loop `for key, value := range s { ego.Set(key, value) }` is `setEach` -/
+local macro "set_each" loop:ident : tactic =>
+  `(tactic| (
+    intro kvs
+    induction kvs with
+    | nil => intro h; simp only [$loop:ident, setEach]
+    | cons x xs ih =>
+      intro h
+      obtain ⟨k, g⟩ := x
+      simp only [$loop:ident, setEach, ih] <;> gen_case))
+
+theorem newObjectFromLoopGen_eq (a : Nat) : ∀ (kvs : List (Str × GoVal)) (h : Heap),
+    newObjectFromLoopGen h a kvs = setEach h a kvs := by set_each newObjectFromLoopGen
+theorem newObjectFromLoop2Gen_eq (a : Nat) : ∀ (kvs : List (Str × GoVal)) (h : Heap),
+    newObjectFromLoop2Gen h a kvs = setEach h a kvs := by set_each newObjectFromLoop2Gen
+theorem newObjectFromLoop3Gen_eq (a : Nat) : ∀ (kvs : List (Str × GoVal)) (h : Heap),
+    newObjectFromLoop3Gen h a kvs = setEach h a kvs := by set_each newObjectFromLoop3Gen
+theorem newObjectFromLoop4Gen_eq (a : Nat) : ∀ (kvs : List (Str × GoVal)) (h : Heap),
+    newObjectFromLoop4Gen h a kvs = setEach h a kvs := by set_each newObjectFromLoop4Gen
+theorem newObjectFromLoop5Gen_eq (a : Nat) : ∀ (kvs : List (Str × GoVal)) (h : Heap),
+    newObjectFromLoop5Gen h a kvs = setEach h a kvs := by set_each newObjectFromLoop5Gen
+theorem newObjectFromLoop6Gen_eq (a : Nat) : ∀ (kvs : List (Str × GoVal)) (h : Heap),
+    newObjectFromLoop6Gen h a kvs = setEach h a kvs := by set_each newObjectFromLoop6Gen
+theorem newObjectFromLoop7Gen_eq (a : Nat) : ∀ (kvs : List (Str × GoVal)) (h : Heap),
+    newObjectFromLoop7Gen h a kvs = setEach h a kvs := by set_each newObjectFromLoop7Gen
+
+/-- `NewObjectFrom`, translated from the source, is the model's `O.newFrom` -/
+theorem newObjectFromGen_eq (h : Heap) (g : GoVal) : newObjectFromGen h g = O.newFrom h g := by
+  cases g with
+  | map fl kvs =>
+    cases fl <;>
+      simp only [newObjectFromGen, O.newFrom, parseVal, newObjectFromLoopGen_eq, newObjectFromLoop2Gen_eq,
+        newObjectFromLoop3Gen_eq, newObjectFromLoop4Gen_eq, newObjectFromLoop5Gen_eq, newObjectFromLoop6Gen_eq,
+        newObjectFromLoop7Gen_eq] <;>
+      (cases setEach (h ++ [Cell.obj [] 0]) h.length kvs with
+       | mk h1 r => cases r <;> rfl)
+  | _ => rfl
+
 /-! ### native -/
 
 mutual
@@ -390,6 +430,7 @@ end Anytype
 #print axioms Anytype.mapIntsGen_eq
 #print axioms Anytype.mapFloatsGen_eq
 #print axioms Anytype.parseValGen_eq
+#print axioms Anytype.newObjectFromGen_eq
 #print axioms Anytype.nativeGen_eq
 #print axioms Anytype.nativeListGen_eq
 #print axioms Anytype.nativeFieldsGen_eq
